@@ -13,7 +13,20 @@ Symbolic per shape (decided by the solver): every data byte of every input secti
 LOCATION and SIZE, every symbol offset, the values of extra symbols, and the alignment of up to two
 sections / ALIGN directives marked "S" (domain {1,2,4,8,16}; {4,8,16} for sections holding an absaddr32 site).
 
-Obligations (per explored path of the real linker; see LinkHarness.post).
+Obligations (per explored path of the real linker; see LinkHarness.post):
+  duplicate-or-undefined-global-is-an-error   shape has a multiply defined global, or (final link) an undefined one
+                                              => CompilerError on every path
+  fails-only-when-stated                      any other CompilerError => some memory cannot hold its inputs
+                                              even with least padding (ref/linkspec.layout_positions)
+  input-bytes-preserved / sectiondata-copy-preserved   output bytes == input bytes outside relocation sites
+  pieces-aligned                              final address of every input piece is a multiple of its alignment
+  inside-declared-memory                      LOCATION <= address, address + size <= LOCATION + SIZE
+  sections-disjoint                           sections of one image pairwise disjoint
+  layout-symbols-and-align-directives         DEFINESYMBOL = location counter, ALIGN honoured, order kept
+  image-data-holds-sections, one-image-per-memory      Image.data has every section at address - image.address
+  symbols-at-section-address-plus-offset      every (global/local/extra) symbol; partial links: section relative
+  absaddr32-site-holds-symbol-address         symbol-id mapping and re-based site offsets (final links)
+  partial-link-relocations-rebased, partial-link-has-no-images
 """
 import os
 import random
